@@ -148,6 +148,63 @@ def worklist_none_edges(facts, fn, g, body, h):
     return out
 
 
+PUSHES = ["Vec::<T, A>::push", "VecDeque::<T, A>::push_back", "VecDeque::<T, A>::push_front"]
+POPS = ["Vec::<T, A>::pop", "VecDeque::<T, A>::pop_front", "VecDeque::<T, A>::pop_back"]
+
+
+def is_guarded_push_helper(f2):
+    """f2 queues an item only when a set test says it has not been seen: every block that pushes onto a collection is
+    reachable from the entry only through the `newly inserted` / `not contained` edge of a HashSet / BTreeSet test"""
+    pushes = [b for b, c, a, d in L.calls_to(f2, PUSHES)]
+    if not pushes:
+        return False
+    fresh = []
+    for b, c, a, d in L.calls_to(f2, SET_TESTS):
+        if "Map" in c["p"]:
+            continue
+        te, fe = L.bool_edges(f2, d[0])
+        fresh += te if L.short(c["p"]) == "insert" else fe
+    if not fresh:
+        return False
+    gg = CF.cfg(f2, thread=True)
+    return gg.path(0, pushes, avoid_edges=fresh) is None
+
+
+def push_time_guard(facts, fn, body):
+    """name of the helper when the loop's work list is filled, inside the loop, only through a guarded-push helper whose
+    visited set lives outside the loop (so every reference is queued at most once and the loop is finite); None otherwise"""
+    pops = [(b, c, a, d) for b, c, a, d in L.calls_to(fn, POPS) if b in body]
+    if len(pops) != 1:
+        return None
+    wl = L.recv_of(fn, pops[0][2])
+    if wl is None:
+        return None
+    for b, c, a, d in L.calls_to(fn, PUSHES):
+        r = L.recv_of(fn, a)
+        if b in body and (r is None or r[0] == wl[0]):
+            return None                 # a direct, untested push inside the loop
+    fl = FL.flow(fn)
+    helper = None
+    for b, c, a, d, t, u in fn.calls():
+        if b not in body or not isinstance(c, dict):
+            continue
+        f2 = facts.fns.get(c.get("r"))
+        if f2 is None or not is_guarded_push_helper(f2):
+            continue
+        recvs = [L.recv_of(fn, [x]) for x in a]
+        if not any(r and r[0] == wl[0] for r in recvs):
+            continue
+        sets = [r[0] for r in recvs if r and "Set<" in str(fn.locals[r[0]] if r[0] < len(fn.locals) else "")]
+        if not sets:
+            return None
+        for sl in sets:
+            for d0 in fl.defs.get(sl, ()):
+                if d0[0] in ("call", "stmt") and d0[1] in body:
+                    return None         # the set is re-created inside the loop
+        helper = f2.id
+    return helper
+
+
 def check_ref_loops(ctx, rule, fn, loaders, label=None, require=1):
     """returns number of guarded / reported loops"""
     g = CF.cfg(fn)
@@ -196,6 +253,13 @@ def check_ref_loops(ctx, rule, fn, loaders, label=None, require=1):
                            "always Some); only the items queued before the loop bypass it", fn.where(h))
                     continue
         if not tests or w is not None:
+            pt = push_time_guard(ctx.facts, fn, body)
+            if pt:
+                ctx.ok(rule, key, "work-list loop: items are queued inside the loop only through %s, which pushes an item only when "
+                       "the visited set (created outside the loop) did not contain it — every reference is queued at most once" % L.short(pt),
+                       fn.where(h))
+                ctx.push_time_loops = getattr(ctx, "push_time_loops", []) + [(fn.id, h, pt)]
+                continue
             ctx.violation(rule, key, "the loop at %s follows object references (%s) and decides its next iteration from what it loaded, "
                           "but no visited-set test or iteration counter guards the load: a reference cycle in the file makes it run "
                           "forever" % (fn.where(h), ", ".join(sorted(set(L.short(fn.term(b)[1]["p"]) for b in targets)))),
